@@ -245,6 +245,7 @@ def run(ctx):
     quant_rule(ctx, model)
     setsubj_rule(ctx, model)
     wrap_rule(ctx)
+    handlefree_rule(ctx, model)
     r_ext = ctx.rule("C13.EXTREME", "TextSelectionSet::leftmost / rightmost return an item with the smallest begin / largest end, for sorted and unsorted sets (all sets up to 3 items over 0..3)")
     from formula import Evaluator, StructVal
     import itertools
@@ -619,3 +620,42 @@ def wrap_rule(ctx, rid="C13.WRAP"):
         for bi, what, line in other[:1]:
             ctx.report(r, "%s|own-answer" % mirq.short_fn(bid), "%s can answer `%s` without asking the low-level relation test: that answer is not the interval relation (two unbound selections have no handle, so comparing handles makes any two of them `the same selection`)" % (bid, what), b.file, line)
     ctx.floor(r, n, 4, "high-level relation tests")
+
+
+# ---------------------------------------------------------------------- HANDLEFREE
+def handlefree_rule(ctx, model, rid="C13.HANDLEFREE"):
+    """the relations are relations between ranges.  A known text selection carries a handle (intid), the same range
+    obtained from an offset does not; PAIR evaluates the arms on handle-less values.  Here every operator is evaluated
+    on the same pairs of ranges with handles attached to neither, either and both operands: the answer may not depend
+    on them (a derived `==` on the values does)."""
+    from formula import Unknown, Panic, some
+    r = ctx.rule(rid, "TextSelection::test gives the same answer for two ranges whether or not the operands carry handles (Equals / InSet compare ranges, not values)")
+    fn = model.f_test
+    ctx.functions_analysed.add(fn.qual)
+    ivs = [(0, 2), (1, 3), (0, 3), (2, 2)]
+    n = 0
+    for op in model.opvalues((None, 1)):
+        key = "%s{negate:%s}" % (op.variant, fmt(bool(op.fields.get("negate"))))
+        bad = None
+        for a in ivs:
+            for b in ivs:
+                base = None
+                for ha, hb in ((None, None), (some(("handle", 5)), None), (None, some(("handle", 6))), (some(("handle", 5)), some(("handle", 6))), (some(("handle", 5)), some(("handle", 5)))):
+                    if ha is not None and hb is not None and ha == hb and a != b:
+                        continue   # one handle names one range
+                    A, B_ = model.interval(*a), model.interval(*b)
+                    if "intid" in A:
+                        A["intid"], B_["intid"] = ha, hb
+                    try:
+                        got = model.call(fn, A, [op, B_, "RESOURCE"], True)[0]
+                    except (Unknown, Panic):
+                        got = "?"
+                    n += 1
+                    if base is None:
+                        base = got
+                    elif got != base and bad is None:
+                        bad = (a, b, ha is not None, hb is not None, base, got)
+        r.hit(key)
+        if bad:
+            ctx.report(r, key, "%r between the ranges %s and %s answers %s when neither operand carries a handle and %s when %s: the relation depends on whether a selection is known to the store, not only on the ranges" % (op, bad[0], bad[1], bad[4], bad[5], "both do" if bad[2] and bad[3] else "the first does" if bad[2] else "the second does"), fn.file, fn.line)
+    ctx.floor(r, n, 500, "evaluations with and without handles")
